@@ -343,6 +343,26 @@ def r204(ctx) -> None:
             f'the lock file')
 
 
+    # ... and removes the lock file only when it created it
+    tl_tests = [t for t in wcfg.nodes if t.kind == 'test' and any(
+        pol and a.endswith('._try_lock()') and a.count('(') == 1
+        for a, pol in guard_atoms(t.stmt.test))]
+    got = [m for t in tl_tests for m, lab in t.succ if lab == 't']
+    uns = wcfg.find(lambda n: any(call_name(c) == '_unlock'
+                                  for c in n.calls()))
+    badu = sorted({u.lineno for u in uns
+                   if not wcfg.dominated_by(u, got, labels=ALL)})
+    R.check(bool(uns) and bool(got) and not badu, wl, wl.node,
+            'FileLock.write_lock unlinks the lock file only after its own '
+            '_try_lock() succeeded',
+            f'_unlock() at line(s) {badu} also runs on paths where this '
+            f'waiter never created the lock file (retry delays exhausted -> '
+            f'TimeoutError, or cancelled during the sleep): it deletes the '
+            f'CURRENT HOLDER\'s lock file, so the next writer\'s exclusive '
+            f'create succeeds while the holder is still inside — two '
+            f'writers of dovecot-uidlist at once (duplicate UIDs)')
+
+
 def r205(ctx) -> None:
     R = ctx.rule('R20.5', 'lock context managers are used via `async with`',
                  15)
